@@ -376,14 +376,20 @@ def check_mark_nodes(chk, rep, repo):
         from ..ir import conj, facts, mk_not
         cont = ("cmp", "!=", *sorted([NIL, ("attr", head, "pred")], key=repr)) if head is not None else None
         conds = [] if li.kind == "for" or li.cond == ("const", True) else list(conj(li.cond))
+        from ..ir import not_nil_forms
+        if head is not None:
+            # (`pred >= 0`, `pred > -1`, `pred != -1`: the same test for a value that is a node number or NIL)
+            conds = [cont if c0 in not_nil_forms(("attr", head, "pred")) else c0 for c0 in conds]
         body_facts = tuple(facts(li.guards)) + tuple(conds)
         breaks = [e for e in w.events if e.kind == "break" and e.loops and e.loops[-1] == li.lid]
         # continuation is decided by `pred != NIL` only: as the loop test (exit before marking: the terminal node
         # is marked after the loop) and/or as a break placed after the mark and before the advance
         cond_ok = head is not None and conds in ([], [cont]) and (bool(conds) or bool(breaks))
         inside = [e for e in w.events if e.kind == "store" and li.lid in e.loops]
+        _nn = not_nil_forms(("attr", head, "pred")) if head is not None else []
+        _canon = lambda fs: tuple(cont if f in _nn else f for f in fs)
         in_ok = head is not None and len(inside) == 1 and inside[0].target == ("attr", head, "relevant") \
-            and inside[0].value == ("K", "RELEVANT") and tuple(facts(inside[0].guards)) == body_facts
+            and inside[0].value == ("K", "RELEVANT") and _canon(facts(inside[0].guards)) == _canon(body_facts)
         moves = [e for e in w.events if e.kind == "bind" and li.lid in e.loops and e.name == walker]
         if in_ok:
             # the flag must be written before the walk moves on
